@@ -89,12 +89,12 @@ SPECS = {
   "assumptions": ["libhdf5 replaced by h5model", "unit grammar (boost::regex) replaced by a hand-written matcher of the same expressions"],
   "harnesses": [{"file": "C08_reject.cpp", "entries": [{"entry": e, "label": "%s.op%d" % (e, o), "fix": {"op": o}} for e in ("vh_c08_reject", "vh_c08_reject_reopen") for o in range(51)]}]},
  "C02": {
-  "explanation": "Full stack on the HDF5 model: a fully linked file (blocks, arrays with every dimension kind, data frame, tag, multi-tag, features, group, source and section trees, properties, metadata/section links) is mutated by a bounded history from a 34-entry menu with symbolic payloads, observed through every public getter, closed, reopened (ReadOnly and ReadWrite) and observed again; the two observations must be byte-identical.",
-  "bounds": {"quick": {"history_steps": 1, "menu": 34, "payload": "symbolic doubles"}, "thorough": {"history_steps": 2, "intermediate_reopen": True}},
+  "explanation": "Full stack on the HDF5 model: a fully linked file (blocks, arrays with every dimension kind, data frame, tag, multi-tag, features, group, source and section trees, properties, metadata/section links) is mutated by a bounded history from a 39-entry menu (incl. alternating use of two handles to the same entity); handles held since creation must agree with freshly fetched ones with symbolic payloads, observed through every public getter, closed, reopened (ReadOnly and ReadWrite) and observed again; the two observations must be byte-identical.",
+  "bounds": {"quick": {"history_steps": 1, "menu": 39, "payload": "symbolic doubles"}, "thorough": {"history_steps": 2, "intermediate_reopen": True}},
   "outside": ["that libhdf5 persists what it was given (bytes on disk, other processes)", "histories longer than the bound", "nesting depth > 4"],
   "assumptions": ["libhdf5 replaced by h5model; close() destroys every nix object, reopen builds fresh ones on the model's file table"],
   "harnesses": [{"file": "C02_reopen.cpp", "defines": {"quick": ["-DVH_STEPS=1"], "thorough": ["-DVH_STEPS=2"]},
-     "entries": [{"entry": "vh_c02_reopen_ro"}, {"entry": "vh_c02_reopen_rw"}]}]},
+     "entries": [{"entry": e, "label": "%s.op%d" % (e, o), "fix": {"op#0": o}} for e in ("vh_c02_reopen_ro", "vh_c02_reopen_rw") for o in range(39)]}]},
  "C03": {
   "explanation": "Full stack (front-end + backend/hdf5 + h5x) on the HDF5 model: bounded create/delete histories per container kind, checked after every step and after close+reopen against a reference list in creation order.",
   "bounds": {"quick": {"history_steps": 3, "names": ["a", "b", "A", "a ", "..", "UUID-shaped", "", "a/b", "1 symbolic char in {a,b,c,/}"], "containers": 11},
